@@ -53,7 +53,7 @@ func R20(p *core.Prog) *core.Result {
 	var fd *ast.FuncDecl
 	for _, file := range gp.Syntax {
 		for _, d := range file.Decls {
-			if f, ok := d.(*ast.FuncDecl); ok && f.Name.Name == "makeResolveNonEmptyValue" {
+			if f, ok := d.(*ast.FuncDecl); ok && f.Recv == nil && f.Name.Name == core.CurrentName("gotype", "makeResolveNonEmptyValue") {
 				fd = f
 			}
 		}
@@ -72,18 +72,39 @@ func R20(p *core.Prog) *core.Result {
 			}
 			return true
 		})
-		covered := map[string]*ast.CaseClause{}
+		type kindArm struct {
+			pos  token.Pos
+			body []ast.Stmt
+		}
+		covered := map[string]*kindArm{}
 		var deflt *ast.CaseClause
+		isKindCall := func(e ast.Expr) bool {
+			ce, ok := e.(*ast.CallExpr)
+			if !ok {
+				return false
+			}
+			se, ok := ce.Fun.(*ast.SelectorExpr)
+			return ok && se.Sel.Name == "Kind"
+		}
 		ast.Inspect(fd.Body, func(n ast.Node) bool {
+			// an arm may also be written as `if t.Kind() == reflect.K { ... }`
+			if is, ok := n.(*ast.IfStmt); ok {
+				if be, ok := is.Cond.(*ast.BinaryExpr); ok && be.Op == token.EQL {
+					for _, pr := range [][2]ast.Expr{{be.X, be.Y}, {be.Y, be.X}} {
+						if isKindCall(pr[0]) {
+							if k := reflectKindConst(info, pr[1]); k != "" && covered[k] == nil {
+								covered[k] = &kindArm{is.Pos(), is.Body.List}
+							}
+						}
+					}
+				}
+				return true
+			}
 			sw, ok := n.(*ast.SwitchStmt)
 			if !ok || sw.Tag == nil {
 				return true
 			}
-			ce, ok := sw.Tag.(*ast.CallExpr)
-			if !ok {
-				return true
-			}
-			if se, ok := ce.Fun.(*ast.SelectorExpr); !ok || se.Sel.Name != "Kind" {
+			if !isKindCall(sw.Tag) {
 				return true
 			}
 			for _, st := range sw.Body.List {
@@ -93,7 +114,7 @@ func R20(p *core.Prog) *core.Result {
 				}
 				for _, e := range cc.List {
 					if k := reflectKindConst(info, e); k != "" {
-						covered[k] = cc
+						covered[k] = &kindArm{cc.Pos(), cc.Body}
 					}
 				}
 			}
@@ -102,7 +123,7 @@ func R20(p *core.Prog) *core.Result {
 		for _, k := range []string{"String", "Slice", "Array", "Map", "Ptr", "Interface"} {
 			pos := p.Pos(fd.Pos())
 			if cc := covered[k]; cc != nil {
-				r.Ok(".KIND-COVERAGE", p.Pos(cc.Pos()), "omitempty has an arm for reflect."+k)
+				r.Ok(".KIND-COVERAGE", p.Pos(cc.pos), "omitempty has an arm for reflect."+k)
 			} else {
 				r.Fail(".KIND-COVERAGE", "gotype.makeResolveNonEmptyValue|"+k, pos, "makeResolveNonEmptyValue has no arm for reflect."+k+": an empty value of that kind is not omitted although the documentation says it is", "")
 			}
@@ -114,7 +135,7 @@ func R20(p *core.Prog) *core.Result {
 				continue
 			}
 			okLen := false
-			for _, st := range cc.Body {
+			for _, st := range cc.body {
 				ast.Inspect(st, func(n ast.Node) bool {
 					id, ok := n.(*ast.Ident)
 					if !ok {
@@ -133,9 +154,9 @@ func R20(p *core.Prog) *core.Result {
 				})
 			}
 			if okLen {
-				r.Ok(".KIND-COVERAGE", p.Pos(cc.Pos()), "reflect."+k+": emptiness is Len() == 0")
+				r.Ok(".KIND-COVERAGE", p.Pos(cc.pos), "reflect."+k+": emptiness is Len() == 0")
 			} else {
-				r.Fail(".KIND-COVERAGE", "gotype.makeResolveNonEmptyValue|"+k+"|Len", p.Pos(cc.Pos()), "the omitempty resolver used for reflect."+k+" does not decide by Len() > 0: an allocated zero-length value is emitted (or a non-empty all-zero array omitted), contrary to the documented rule 'zero-length string/slice/array/map'", "")
+				r.Fail(".KIND-COVERAGE", "gotype.makeResolveNonEmptyValue|"+k+"|Len", p.Pos(cc.pos), "the omitempty resolver used for reflect."+k+" does not decide by Len() > 0: an allocated zero-length value is emitted (or a non-empty all-zero array omitted), contrary to the documented rule 'zero-length string/slice/array/map'", "")
 			}
 		}
 		if deflt != nil && nodeMentions(deflt, "implementsIsZeroer") {
@@ -444,36 +465,54 @@ func nameAgree(p *core.Prog, r *core.Result, fnName string) {
 		r.Fail(".NAME-AGREE", fkey+"|parseTags", p.Pos(f.Pos()), fkey+" no longer obtains the member name from parseTags", "")
 		return
 	}
-	// the sinks: string arguments named `name` of make*FieldFold, or keys of map updates / lookups on map[string]fieldUnfolder
-	var sinks []ssa.Value
-	for _, b := range f.Blocks {
-		for _, in := range b.Instrs {
-			switch x := in.(type) {
-			case *ssa.Call:
-				sc := x.Common().StaticCallee()
-				if sc != nil && strings.HasPrefix(core.FuncName(sc), "make") && strings.Contains(core.FuncName(sc), "FieldFold") && len(x.Common().Args) > 0 {
-					if b, ok := x.Common().Args[0].Type().Underlying().(*types.Basic); ok && b.Kind() == types.String {
-						sinks = append(sinks, x.Common().Args[0])
+	// the sinks: string arguments named `name` of make*FieldFold, or keys of map updates / lookups on
+	// map[string]fieldUnfolder - in the function itself or in a helper it hands the tag name to
+	type sinkAt struct {
+		v   ssa.Value
+		tag ssa.Value
+	}
+	var sinks []sinkAt
+	var collect func(g *ssa.Function, tag ssa.Value, depth int)
+	collect = func(g *ssa.Function, tag ssa.Value, depth int) {
+		for _, b := range g.Blocks {
+			for _, in := range b.Instrs {
+				switch x := in.(type) {
+				case *ssa.Call:
+					sc := x.Common().StaticCallee()
+					if sc != nil && strings.HasPrefix(core.FuncName(sc), "make") && strings.Contains(core.FuncName(sc), "FieldFold") && len(x.Common().Args) > 0 {
+						if b, ok := x.Common().Args[0].Type().Underlying().(*types.Basic); ok && b.Kind() == types.String {
+							sinks = append(sinks, sinkAt{x.Common().Args[0], tag})
+						}
+						continue
 					}
-				}
-			case *ssa.MapUpdate:
-				if mt, ok := x.Map.Type().Underlying().(*types.Map); ok {
-					if n := namedOf(mt.Elem()); n != nil && core.TypeName(n) == "fieldUnfolder" {
-						// only the non-inline insertion (key is not a range variable of a sub map)
-						if _, isNext := x.Key.(*ssa.Extract); !isNext {
-							sinks = append(sinks, x.Key)
+					if sc != nil && sc != g && depth < 2 && sc.Blocks != nil && core.FuncPkg(sc) == core.FuncPkg(f) {
+						for i, a := range x.Common().Args {
+							if a == tag && i < len(sc.Params) {
+								collect(sc, sc.Params[i], depth+1)
+							}
+						}
+					}
+				case *ssa.MapUpdate:
+					if mt, ok := x.Map.Type().Underlying().(*types.Map); ok {
+						if n := namedOf(mt.Elem()); n != nil && core.TypeName(n) == "fieldUnfolder" {
+							// only the non-inline insertion (key is not a range variable of a sub map)
+							if _, isNext := x.Key.(*ssa.Extract); !isNext {
+								sinks = append(sinks, sinkAt{x.Key, tag})
+							}
 						}
 					}
 				}
 			}
 		}
 	}
+	collect(f, tagName, 0)
 	if len(sinks) == 0 {
 		r.Undecided(".NAME-AGREE", fkey+"|sinks", "no member-name sink found in "+fkey)
 		return
 	}
-	sort.Slice(sinks, func(i, j int) bool { return sinks[i].Pos() < sinks[j].Pos() })
-	for _, s := range sinks {
+	sort.Slice(sinks, func(i, j int) bool { return sinks[i].v.Pos() < sinks[j].v.Pos() })
+	for _, sk := range sinks {
+		s, tagName := sk.v, sk.tag
 		okName := false
 		why := "is not phi[tag name, strings.ToLower(field name)]"
 		if phi, ok := s.(*ssa.Phi); ok && len(phi.Edges) == 2 {
